@@ -94,6 +94,71 @@ Section Blocks.
   Lemma row0_run : forall st, known st A -> runs_to (fun st' => known st' (A ++ stageB s cd R N)) (exec ext01 sm_row0 st).
   Proof.
     intros st K. unfold stageA in K. open_known K. unfold sm_row0.
-    assign_open. evn. Show.
-  Abort.
+    assign ltac:(evn; replace (Z.of_nat R + 1)%Z with (Z.of_nat (S R)) by lia; rewrite arange_f_nat; evn; reflexivity).
+    ifstep. rewrite !exec_seq_assoc.
+    asg. asg.
+    assign ltac:(evn; change 1%Z with (Z.of_nat 1); rewrite full_mat, triu_mat; evn; reflexivity).
+    asg.
+    assign ltac:(evn; replace (Z.of_nat R + 1)%Z with (Z.of_nat (S R)) by lia; rewrite expand2_col; evn; reflexivity).
+    apply runs_to_ok. unfold stageA, stageB. close_known.
+    - match goal with L : lookup "del_mat" _ = _ |- _ => rewrite L end. do 3 f_equal. apply tab2_ext. intros i j Hi Hj.
+      apply del_entry_src.
+    - match goal with L : lookup "row" _ = _ |- _ => rewrite L end. do 3 f_equal. apply tab2_ext. intros i j Hi Hj.
+      apply fmul_z2f_zf.
+  Qed.
+
+  (* ---- sm_main: the flag block, the loop, the exits of the other configurations, the gather ------------ *)
+  Definition main_flags : stmt := match sm_main with SSeq a _ => a | _ => SPass end.
+  Definition main_rest : stmt := match sm_main with SSeq _ (SSeq _ r) => r | _ => SPass end.
+  Lemma sm_main_eq : sm_main = SSeq main_flags (SSeq sm_loop main_rest).
+  Proof. reflexivity. Qed.
+
+  (* column n of the table after all H steps, from row 0 = arange * del_cost *)
+  Definition final_col (n : nat) : list Z :=
+    iter_col ci cd cs R H rf hf hl H 0 (fun i _ => Z.of_nat i * cd)%Z n.
+
+  Definition stageC : list (string * val) :=
+    [("er", enc_x (mkTn [N] (map (fun n => zf s (nth (rl n) (final_col n) 0%Z)) (seq 0 N))));
+     ("mult", VQ mult); ("norm", VBool nm); ("warn", VBool w);
+     ("ref_lens", lens_tensor N rl); ("hyp_lens", lens_tensor N hl)].
+
+  Lemma main_run : forall st, (forall n, (n < N)%nat -> (rl n <= R)%nat) ->
+    known st (A ++ stageB s cd R N) -> runs_to (fun st' => known st' stageC) (exec ext01 sm_main st).
+  Proof.
+    intros st Hrl K. unfold stageA, stageB in K. open_known K. rewrite sm_main_eq.
+    unfold main_flags, sm_main. cbv iota. ifstep. ifstep. seqnorm.
+    eapply runs_to_seq.
+    - apply (loop_tie s ci cd cs R N H rf hf hl (lens_tensor N rl) (VQ mult) (VBool nm) (VBool w) st
+               (fun i _ => Z.of_nat i * cd)%Z); [|assumption].
+      unfold body_pre. repeat split; assumption.
+    - intros st1 P1. destruct P1 as (Hexcl & Hmist & Hmask & Hprf & Hhl & Href & Hhyp & Hci & Hcs & Hdm & Hrl' & Hmu & Hno & Hwa & Hrow).
+      unfold main_rest, sm_main. cbv iota. unfold lens_tensor in *.
+      ifstep. ifstep. ifstep.
+      assign ltac:(evn; rewrite gather0_row by (intros j Hj; specialize (Hrl j Hj); lia); evn; reflexivity).
+      apply runs_to_ok. unfold stageC, lens_tensor. close_known.
+  Qed.
+
+  (* ---- sm_fin: mult, the normalisation, return ---------------------------------------------------------------- *)
+  Definition fin_value (n : nat) : fx :=
+    let x := fmul (zf s (nth (rl n) (final_col n) 0%Z)) (Fq mult) in
+    if nm then (if (Z.of_nat (rl n) =? 0)%Z then b2f (Z.of_nat (hl n) >? 0)%Z else fdiv x (z2f (Z.of_nat (rl n))))
+    else x.
+
+  Lemma fin_run : forall st, known st stageC ->
+    returns (enc_x (mkTn [N] (map fin_value (seq 0 N)))) (exec ext01 sm_fin st).
+  Proof.
+    intros st K. unfold stageC, lens_tensor in K. open_known K. unfold sm_fin.
+    asg. ifstep. unfold fin_value. destruct nm; cbv iota.
+    - asg. asg. ifstep.
+      match goal with |- context [if ?b then _ else _] => destruct b eqn:Hany end.
+      + ifstep. destruct w; asg; cbn [exec eval]; look; cbn [bind]; eexists; reflexivity.
+      + seqnorm. cbn [exec eval]. look. cbn [bind]. eexists. do 4 f_equal.
+        apply map_ext_seq. intros n Hn.
+        replace (Z.of_nat (rl n) =? 0)%Z with false; [reflexivity|].
+        unfold any_b in Hany. cbn [dat] in Hany. symmetry.
+        destruct (Z.of_nat (rl n) =? 0)%Z eqn:E; [|reflexivity].
+        rewrite <- Hany. symmetry. apply existsb_exists. exists true. split; [|reflexivity].
+        apply in_map_iff. exists n. split; [exact E|apply in_seq; lia].
+    - seqnorm. cbn [exec eval]. look. cbn [bind]. eexists. reflexivity.
+  Qed.
 End Blocks.
